@@ -7,7 +7,7 @@ const E = require('../lib/espace');
 
 // spellings: [source name, runtime name (prefix removed, first letter lower-cased)]
 const NAMES = { 'v-visible': 'visible', vValue: 'value', 'v-foo': 'foo', vFoo: 'foo', 'v-foo-bar': 'foo-bar', vFooBar: 'fooBar', 'v-show': '@vShow', vShow: '@vShow' };
-const MODS = { none: [], a: ['a'], ab: ['a', 'b'], hy: ['a-b'] };
+const MODS = { none: [], a: ['a'], ab: ['a', 'b'], hy: ['a-b'], mix: ['ok', 'a-b', 'c'] };
 // value shapes: src, value(env), arg(env)|undefined, mods|undefined ; abstainValue for the value-less form
 const SHAPES = {
   x:      { src: '={x}', value: (e) => e.bound.x },
@@ -17,6 +17,7 @@ const SHAPES = {
   arrDyn: { src: '={[x, dyn]}', value: (e) => e.bound.x, arg: (e) => e.bound.dyn, array: true },
   arrMods:{ src: "={[x, ['m1', 'm2']]}", value: (e) => e.bound.x, mods: ['m1', 'm2'], array: true },
   arrAll: { src: "={[x, 'a2', ['m1']]}", value: (e) => e.bound.x, arg: () => 'a2', mods: ['m1'], array: true },
+  arrModsMix: { src: "={[x, ['m1', 'm-2', 'ok']]}", value: (e) => e.bound.x, mods: ['m1', 'm-2', 'ok'], array: true, narrow: true },
   arrMem: { src: '={[o.p, o.q.r, ["m-1"]]}', value: (e) => e.bound.o.p, arg: (e) => e.bound.o.q.r, mods: ['m-1'], array: true },
   str:    { src: '="str"', value: () => 'str' },
   absent: { src: '', novalue: true },
@@ -57,6 +58,7 @@ function* directives(full) {
   const names = full ? Object.keys(NAMES) : ['v-foo', 'vFooBar', 'v-show'];
   for (const name of names) for (const arg of [false, true]) for (const mods of Object.keys(MODS)) for (const shape of Object.keys(SHAPES)) {
     // wrapped shapes: only with the full grammar in small contexts, and with the core names
+    if (mods === 'mix' && (!full || !['v-foo', 'vFooBar', 'v-show'].includes(name) || SHAPES[shape].ts || SHAPES[shape].narrow)) continue;
     if ((SHAPES[shape].ts || SHAPES[shape].narrow) && (!full || !['v-foo', 'vFooBar', 'v-show'].includes(name) || mods === 'ab')) continue;
     const d = { name, arg, mods, shape };
     if (!abstainDir(d)) yield d;
